@@ -58,9 +58,27 @@ theorem C12_after_is_expected (old new : List Nat) (hn : new.Nodup) (v : Nat) :
   rw [h1, h2]
   by_cases a : v ∈ old <;> by_cases b : v ∈ new <;> simp [a, b]
 
+/-- `ConstructPatches`' update list is the requirement diff keyed by manifest ENTRY (package name together
+with the npm alias / Maven type): every entry whose version changed has its own update, carrying its
+own key, and every reported update comes from an entry of the new manifest with that key whose old
+version (under the same key) differs.  Two entries for one package — its own name and an `npm:` alias,
+at the same old and new range — therefore yield two updates (`C12_alias_pair_witness`). -/
+theorem C12_update_per_entry (old new : List (Key × Nat)) (hn : (old.map (·.1)).Nodup) :
+    (∀ k v v', (k, v) ∈ old → (k, v') ∈ new → v' ≠ v → (⟨k, some v, v'⟩ : ReqUpdate) ∈ reqDiff old new) ∧
+    (∀ u ∈ reqDiff old new, (u.key, u.to) ∈ new ∧ u.frm = lookupReq old u.key ∧ u.frm ≠ some u.to) :=
+  ⟨fun k v v' h1 h2 hne => reqDiff_has_update old new hn k v v' h1 h2 hne, fun u hu => reqDiff_sound old new u hu⟩
+
+/-- "lib" (alias 0) and "lib-legacy" → npm:lib (alias 7), both ^1 (10) relaxed to ^2 (11): two updates that
+differ only in the key's alias component; a writer given both rewrites both entries -/
+theorem C12_alias_pair_witness :
+    reqDiff [((1, 0), 10), ((1, 7), 10)] [((1, 0), 11), ((1, 7), 11)] = [⟨(1, 0), some 10, 11⟩, ⟨(1, 7), some 10, 11⟩] ∧
+    applyUpdates [((1, 0), 10), ((1, 7), 10)] [⟨(1, 0), some 10, 11⟩, ⟨(1, 7), some 10, 11⟩] = [((1, 0), 11), ((1, 7), 11)] ∧
+    applyUpdates [((1, 0), 10), ((1, 7), 10)] [⟨(1, 0), some 10, 11⟩] ≠ [((1, 0), 11), ((1, 7), 11)] := by
+  decide
+
 /-- The requirement updates a patch reports, substituted into the old requirements, give the patched
 requirements (same keys in the same order, no duplicates: an update, not an addition). -/
-theorem C12_updates_substitute (old new : List (Nat × Nat)) (hk : old.map (·.1) = new.map (·.1))
+theorem C12_updates_substitute (old new : List (Key × Nat)) (hk : old.map (·.1) = new.map (·.1))
     (hn : (old.map (·.1)).Nodup) : applyUpdates old (reqDiff old new) = new :=
   applyUpdates_reqDiff old new hk hn
 
@@ -100,9 +118,9 @@ theorem C12_no_patch_no_change {M : Type} (p : Pipe M) (hw : WriterCorrect p) (m
 
 /-! Non-vacuity: a pipe satisfying `WriterCorrect` (manifest = its requirement list), and concrete
 patch lists exercising every branch of `choosePatches`. -/
-def listPipe (vulns : List (Nat × Nat) → List Nat) : Pipe (List (Nat × Nat)) :=
+def listPipe (vulns : List (Key × Nat) → List Nat) : Pipe (List (Key × Nat)) :=
   ⟨id, vulns, fun m us => applyUpdates m us, fun m us => applyUpdates m us⟩
-example (vulns : List (Nat × Nat) → List Nat) : WriterCorrect (listPipe vulns) := fun _ _ => rfl
+example (vulns : List (Key × Nat) → List Nat) : WriterCorrect (listPipe vulns) := fun _ _ => rfl
 
 def exPatches : List Patch :=
   [⟨[⟨1, 10, 11⟩], [100], []⟩, ⟨[⟨1, 10, 12⟩], [100, 101], []⟩, ⟨[⟨2, 20, 21⟩], [100], []⟩, ⟨[⟨3, 30, 31⟩], [102], [200]⟩, ⟨[⟨4, 40, 41⟩], [103], []⟩]
@@ -111,7 +129,7 @@ example : (choosePatches exPatches 0 true).map (·.fixed) = [[100], [103]] := by
 example : (choosePatches exPatches 1 false).map (·.fixed) = [[100]] := by decide
 example : computeVulnsResult [100, 104] exPatches = [(100, false), (104, true)] := by decide
 example : vulnDiff [1, 2, 3] [3, 4] = ([1, 2], [4]) := by decide
-example : reqDiff [(1, 10), (2, 20)] [(1, 10), (2, 21), (3, 30)] = [⟨2, some 20, 21⟩, ⟨3, none, 30⟩] := by decide
+example : reqDiff [((1, 0), 10), ((2, 0), 20)] [((1, 0), 10), ((2, 0), 21), ((3, 0), 30)] = [⟨(2, 0), some 20, 21⟩, ⟨(3, 0), none, 30⟩] := by decide
 /-- the `Nodup` hypothesis of `C12_patch_is_diff` is not decoration: a vulnerability listed twice by the
 new analysis is reported as introduced although it was there before -/
 theorem C12_duplicate_witness : vulnDiff [7] [7, 7] = ([], [7]) := by decide
